@@ -38,6 +38,7 @@ def run(chk):
     n = 60 if tier == "quick" else 600
     cases, meta = [], {}
     metam = {}
+    metap = {}
     for i in range(n):
         r = chk.rng.fork()
         base = rulegen.rand_text(r, 3, 8).replace(b"\0", b"a")
@@ -152,6 +153,27 @@ def run(chk):
         cases.append(("N%d" % i, ["newcompiler", "add " + hx((deep + tgt3).encode()), "getrules", "scanner 0"] + mscans))
         cases.append(("O%d" % i, ["newcompiler", "add " + hx(tgt3.encode()), "ns nsX", "add " + hx(deep.encode()), "getrules", "scanner 0"] + mscans))
         meta_m = (tgt3, deep, mbufs)
+        # P/Q/R: a regexp target with a bounded gap, alone vs with a companion regexp whose execution ends while one of its threads is still
+        # counting a gap (ungreedy gap matched early / newline inside a gap / end of data): the regexp engine's thread pool is shared by all
+        # strings of a scan; data with a near miss of the target whose gap is too short and a proper occurrence
+        w = lambda k: bytes(r.choice(b"abcdefghjkmnpqrstuvwxyz") for _ in range(k)).decode()
+        c1, c2, t1, t2 = w(4), w(4).upper(), w(2), w(4)
+        gmin = r.range(3, 9)
+        gmax = gmin + r.range(0, 5)
+        comp_re = r.choice(["/%s.{2,20}?%s/" % (c1, c2), "/%s.{1,30}%s/" % (c1, c2), "/%s.{2,}?%s/" % (c1, c2), "{ %s [2-20] %s }" % (
+            " ".join("%02X" % ord(x) for x in c1), " ".join("( %02X | %02X )" % (ord(x), ord(x) ^ 0x20) for x in c2))])
+        tgt4 = "rule target4 { strings: $a = /%s.{%d,%d}%s/ condition: $a }\n" % (t1, gmin, gmax, t2)
+        comp4 = "rule comp4 { strings: $c = %s condition: $c }\n" % comp_re
+        short = r.range(0, gmin - 1)
+        pbufs = [(c1 + "12" + c2 + "." * r.range(1, 9) + t1 + "X" * short + t2 + "....").encode(),
+                 (c1 + "1\n2" + c2 + " " + t1 + "Y" * short + t2 + " " + t1 + "Z" * gmin + t2).encode(),
+                 (t1 + "X" * short + t2 + c1 + "123" + c2 + t1 + "X" * short + t2 + c1 + "12").encode(),
+                 (c1 + "12" + c2 + c1 + "1234567" + t1 + "q" * gmax + t2 + t1 + "q" * (gmax + 1) + t2).encode()]
+        pscans = ["scan " + hx(b) for b in pbufs]
+        cases.append(("P%d" % i, ["newcompiler", "add " + hx(tgt4.encode()), "getrules", "scanner 0"] + pscans))
+        cases.append(("Q%d" % i, ["newcompiler", "add " + hx((comp4 + tgt4).encode()), "getrules", "scanner 0"] + pscans))
+        cases.append(("R%d" % i, ["newcompiler", "add " + hx((tgt4 + comp4).encode()), "getrules", "scanner 0"] + pscans))
+        metap[i] = (tgt4, comp4, pbufs)
         # H/I: rule sets with a wildcard (`all of (pk_*)`) select rules of their OWN namespace only: namespace nsB alone (H) vs after a
         # namespace nsA that has rules with the same prefix and other verdicts (I)
         pk = "rule pk_1 { condition: filesize > %d }\nrule pk_2 { condition: true }\n" % r.choice([20, 40, 60])
@@ -237,6 +259,19 @@ def run(chk):
                     break
                 if any(x and x[0] == "M" for x in lm[:3]):
                     chk.add("deep_atom_near_block_start_matches")
+        if not bad:
+            tgt4, comp4, pbufs = metap[i]
+            lp = [rule_result(l, "target4") for l in out.get("P%d" % i, []) if l.startswith("scan msgs=")]
+            for v in "QR":
+                lq = [rule_result(l, "target4") for l in out.get("%s%d" % (v, i), []) if l.startswith("scan msgs=")]
+                if len(lp) != len(pbufs) or lq != lp:
+                    bi = next((k for k in range(min(len(lp), len(lq))) if lp[k] != lq[k]), 0)
+                    chk.violation("company:regexp-thread-pool", "rule target4 alone: %s ; together with another regexp string (%s it): %s"
+                                  % (lp[bi:bi + 1], "after" if v == "Q" else "before", lq[bi:bi + 1]),
+                                  {"target": tgt4, "companion": comp4, "buffer_hex": hx(pbufs[bi]) if bi < len(pbufs) else None, "alone": lp, "company": lq,
+                                   "variant": v, "how": "h_scan: newcompiler; add <companion + target>; getrules; scanner 0; scan <each buffer in turn on the same scanner>"})
+                    bad = True
+                    break
         if not bad:
             lh = [l for l in out.get("H%d" % i, []) if l.startswith("scan msgs=")]
             li = [l for l in out.get("I%d" % i, []) if l.startswith("scan msgs=")]
